@@ -13,21 +13,21 @@ Lemma check_num_args_matches_source (allowed : list N) (n : nat) :
   check_num_args allowed n = src_soyhtml_checkNumArgs (map Z.of_N allowed) (Z.of_nat n).
 Proof.
   unfold check_num_args, src_soyhtml_checkNumArgs, mem. rewrite find_existsb, existsb_map.
-  apply existsb_ext. intros a. lia.
+  apply st_existsb_ext. intros a. lia.
 Qed.
 
 (* exec.go isInt / isString *)
-Lemma is_int_matches_source (v : value) : is_int v = src_soyhtml_isInt value vkind v.
+Lemma is_int_matches_source (v : value) : is_int v = src_soyhtml_isInt value st_vkind v.
 Proof. destruct v; reflexivity. Qed.
 
-Lemma is_str_matches_source (v : value) : is_str v = src_soyhtml_isString value vkind v.
+Lemma is_str_matches_source (v : value) : is_str v = src_soyhtml_isString value st_vkind v.
 Proof. destruct v; reflexivity. Qed.
 
 (* funcs.go funcIsNonnull, funcHasData, funcLength as Model/Interp.v's apply_func applies them
    (the arity has been checked before: exactly the listed number of arguments) *)
 Theorem func_isNonnull_matches_source (v : value) :
   apply_func n_isNonnull [v] =
-  match src_soyhtml_funcIsNonnull value vkind VBool [v] with Some x => Ok (FVal x) | None => Err e_type end.
+  match src_soyhtml_funcIsNonnull value st_vkind VBool [v] with Some x => Ok (FVal x) | None => Err e_type end.
 Proof.
   unfold src_soyhtml_funcIsNonnull. rewrite go_index_0. cbn [go_bind].
   destruct v; reflexivity.
@@ -61,5 +61,5 @@ Lemma entry_mode_matches_source (ns : N) :
   Z.of_N (entry_mode ns) = src_soyhtml_Renderer_Execute_autoescapeMode (Z.of_N ns).
 Proof.
   unfold entry_mode, src_soyhtml_Renderer_Execute_autoescapeMode. cbv zeta.
-  destruct (ns =? 0) eqn:E; decide_ifs; lia.
+  destruct (ns =? 0) eqn:E; st_decide_ifs; lia.
 Qed.
